@@ -17,9 +17,10 @@ def prep (w1 : World) (pred : HState) : World × HState :=
 def admitTo (w5 : World) (key : Str) (st : HState) (ok : Bool) : World :=
   if ok then w5.store key st else w5.remove key
 
-def finish (key : Str) (pvol : Bool) (w3 : World) (old : HState) (name : Str) (args : List HV) : World × Res :=
+def finish (key : Str) (pvol : Bool) (ctx : List (Str × HV)) (w3 : World) (old : HState) (name : Str) (args : List HV) :
+    World × Res :=
   let w3 := { w3 with calls := w3.calls ++ [callText name (absHV w3.heap old.data) (args.map (absHV w3.heap))] }
-  match cmdH w3.heap old (String.ofList name) args with
+  match cmdH w3.heap old ctx (String.ofList name) args with
   | .fail => (w3, .fail)
   | .ok h4 data vol caching =>
     let m := h4.metaAt old.md
@@ -67,7 +68,8 @@ theorem evalChain_finish {n : Nat} {w w' w1 w3 : World} {absolute : Bool} {acts 
     (hp : predEval n w' absolute acts = (w1, .st pred))
     (ha : evalArgs n (prep w1 pred).1 act.args = (w3, some args)) :
     evalChain (n + 1) w absolute acts =
-      finish (keyOf absolute acts) (w1.heap.metaAt pred.md).volatile w3 (prep w1 pred).2 act.name args := by
+      finish (keyOf absolute acts) (w1.heap.metaAt pred.md).volatile (w1.heap.metaAt pred.md).vars w3 (prep w1 pred).2
+        act.name args := by
   rw [evalChain]; simp only [lookup] at h; simp only [h, hl]
   simp only [predEval, initRes] at hp
   simp only [hp]
@@ -76,12 +78,12 @@ theorem evalChain_finish {n : Nat} {w w' w1 w3 : World} {absolute : Bool} {acts 
   · rename_i hv
     simp only [hv, ↓reduceIte] at ha ⊢
     simp only [ha, finish, admitTo]
-    generalize cmdH _ _ _ _ = c; cases c <;> rfl
+    generalize cmdH _ _ _ _ _ = c; cases c <;> rfl
   · rename_i hv
     simp only [hv] at ha ⊢
     simp only [Bool.false_eq_true, ↓reduceIte] at ha ⊢ 
     simp only [ha, finish, admitTo]
-    generalize cmdH _ _ _ _ = c; cases c <;> rfl
+    generalize cmdH _ _ _ _ _ = c; cases c <;> rfl
 
 theorem evalArgs_zero (w : World) (args : List Arg) : evalArgs 0 w args = (w, none) := by
   rw [evalArgs]
@@ -249,12 +251,14 @@ theorem initRes_stage {w : World} {lo : Nat} {L : List Addr} (i : Inv w) (o : Ow
 
 /-! ### the input state of the command -/
 
+/-- the predecessor state stays owned (the context's variables are its objects), the input state of the command is owned -/
 theorem prep_stage {w : World} {lo : Nat} {pred : HState} (i : Inv w) (o : Own w lo (cellsState w.heap pred)) :
-    Stage lo w (cellsState w.heap pred) (prep w pred).1 (cellsState (prep w pred).1.heap (prep w pred).2) := by
+    Stage lo w (cellsState w.heap pred) (prep w pred).1
+      (cellsState w.heap pred ++ cellsState (prep w pred).1.heap (prep w pred).2) := by
   unfold prep
   split
-  · exact Stage.refl i o
-  · exact (Stage.clone i o pred).sub_right (fun a ha => List.mem_append.2 (Or.inr ha))
+  · exact (Stage.refl i o).sub_right (fun a ha => by simpa using ha)
+  · exact Stage.clone i o pred
 
 theorem prep_nodup {w : World} {pred : HState} (hv : (w.heap.metaAt pred.md).volatile = false) :
     (cellsState (prep w pred).1.heap (prep w pred).2).Nodup := by
@@ -327,10 +331,10 @@ theorem admit_stage {w : World} {lo : Nat} {k : Str} {st : HState} {ok : Bool} (
 
 /-! ### the command and what follows it -/
 
-theorem finish_stage {key : Str} {pvol : Bool} {w3 : World} {old : HState} {name : Str} {args : List HV} {lo : Nat}
-    (i : Inv w3) (o : Own w3 lo (cmdFoot w3.heap old args)) :
-    Stage lo w3 (cmdFoot w3.heap old args) (finish key pvol w3 old name args).1
-      (resCells (finish key pvol w3 old name args).1.heap (finish key pvol w3 old name args).2) := by
+theorem finish_stage {key : Str} {pvol : Bool} {ctx : List (Str × HV)} {w3 : World} {old : HState} {name : Str}
+    {args : List HV} {lo : Nat} (i : Inv w3) (o : Own w3 lo (cmdFoot w3.heap old ctx args)) :
+    Stage lo w3 (cmdFoot w3.heap old ctx args) (finish key pvol ctx w3 old name args).1
+      (resCells (finish key pvol ctx w3 old name args).1.heap (finish key pvol ctx w3 old name args).2) := by
   unfold finish
   simp only
   split
@@ -338,7 +342,7 @@ theorem finish_stage {key : Str} {pvol : Bool} {w3 : World} {old : HState} {name
   · rename_i h4 data vol caching hc
     simp only [resCells]
     obtain ⟨hm, hcells⟩ := cmdH_frame hc (fun a ha => (o.rng a ha).2)
-    have s4 : Stage lo w3 (cmdFoot w3.heap old args) _ (cellsState h4 ⟨data, old.md⟩) :=
+    have s4 : Stage lo w3 (cmdFoot w3.heap old ctx args) _ (cellsState h4 ⟨data, old.md⟩) :=
       (Stage.heap i o hm hcells).calls (w3.calls ++ [callText name (absHV w3.heap old.data) (args.map (absHV w3.heap))])
     let m' : MetaRec :=
       { h4.metaAt old.md with
